@@ -2589,3 +2589,55 @@ func c01r23(rc *core.RC) {
 		rc.Unknown("encoder-vms/OpInterface-null-exit", token.NoPos, "found %d null exits for a nil data word in the OpInterface clauses, fewer than the 4 confirmed by hand", n)
 	}
 }
+
+// ---- C01.R24 where both marshal interfaces are asked for, MarshalJSON is asked first ----
+
+// encoding/json prefers MarshalJSON to MarshalText wherever a type has both. The compiler decides that in several
+// places (the root, behind a pointer, elements, members), each a switch whose cases ask for the two interfaces.
+// Obligation, for every tagless switch of compiler.go that has cases for both: a case that asks for MarshalJSON
+// stands in front of the first case that asks for MarshalText.
+func c01r24(rc *core.RC) {
+	p := rc.P
+	n := 0
+	for _, fd := range p.Funcs("encoder") {
+		if fd.Body == nil || p.FileBase(fd.Pos()) != "compiler.go" {
+			continue
+		}
+		k := 0
+		ast.Inspect(fd.Body, func(m ast.Node) bool {
+			sw, ok := m.(*ast.SwitchStmt)
+			if !ok || sw.Tag != nil {
+				return true
+			}
+			firstJSON, firstText := -1, -1
+			for i, st := range sw.Body.List {
+				cc := st.(*ast.CaseClause)
+				for _, e := range cc.List {
+					src := core.Src(p.Fset, e)
+					if firstJSON < 0 && (strings.Contains(src, "MarshalJSON") || strings.Contains(src, "marshalJSON")) {
+						firstJSON = i
+					}
+					if firstText < 0 && (strings.Contains(src, "MarshalText") || strings.Contains(src, "marshalText")) && !strings.Contains(src, "MarshalJSON") && !strings.Contains(src, "marshalJSON") {
+						firstText = i
+					}
+				}
+			}
+			if firstJSON < 0 || firstText < 0 {
+				return true
+			}
+			n++
+			k++
+			rc.Touch(p.FuncName(fd))
+			key := fmt.Sprintf("%s/marshaler-switch#%d MarshalJSON-asked-first", p.FuncName(fd), k)
+			if firstJSON < firstText {
+				rc.OK(key, sw.Pos(), "the case for MarshalJSON stands in front of the case for MarshalText")
+			} else {
+				rc.Bad(key, sw.Pos(), "%s asks for MarshalText before MarshalJSON: a type that has both methods is written through MarshalText at this position (a quoted text) where encoding/json and the other positions of the compiler call MarshalJSON", p.FuncName(fd))
+			}
+			return true
+		})
+	}
+	if n < 4 {
+		rc.Unknown("encoder/compiler.go/marshaler-switches", token.NoPos, "found %d switches that ask for both marshal interfaces, fewer than the 4 confirmed by hand", n)
+	}
+}
